@@ -34,6 +34,14 @@ from . import eo_common as E
 K = "ktensor.ktensor."
 
 
+def kfunc(prog: Program, name: str):
+    """The ktensor method with views of the Kruskal fields spelled canonically (alg_common.dealias_factors)."""
+    import dataclasses
+    from . import alg_common as A
+    fi = prog.func(K + name)
+    return dataclasses.replace(fi, node=A.dealias_factors(fi.node))
+
+
 # ------------------------------------------------------------------ parity domain
 def _par_add(p: Optional[str], c: int) -> Optional[str]:
     if p is None:
@@ -313,7 +321,7 @@ def parity(prog: Program, res: Result) -> None:
         else:
             res.undecided("PARITY", fi.short, desc, prog.loc(fi, st), f"parities {pars}")
     # normalize: negative weight repair
-    fn = prog.func(K + "normalize")
+    fn = kfunc(prog, "normalize")
     desc = "negative weights are repaired by negating the weight and exactly one factor, with the same index set"
     idx_defs = [a for a in ast.walk(fn.node) if isinstance(a, ast.Assign) and isinstance(a.targets[0], ast.Name) and "weights < 0" in ast.unparse(a.value)]
     if not idx_defs:
@@ -335,7 +343,7 @@ def parity(prog: Program, res: Result) -> None:
 # ------------------------------------------------------------------ selectors
 def ps_k(prog: Program, res: Result) -> None:
     for name in ("arrange", "extract"):
-        fi = prog.func(K + name)
+        fi = kfunc(prog, name)
         wsel, fsel = [], []
         for n in ast.walk(fi.node):
             if isinstance(n, ast.Subscript) and isinstance(n.ctx, ast.Load):
@@ -361,7 +369,7 @@ def ps_k(prog: Program, res: Result) -> None:
         else:
             res.bad("PS-k", fi.short, desc, prog.loc(fi, (wsel or fsel)[0][1]), f"weights selected by {sorted(ws)}, factor columns by {sorted(fs)}")
     # normalize(sort) delegates to arrange with a descending permutation of the weights
-    fi = prog.func(K + "normalize")
+    fi = kfunc(prog, "normalize")
     desc = "normalize(sort=True) sorts through arrange(permutation = descending argsort of the weights)"
     calls = [c for c in ast.walk(fi.node) if isinstance(c, ast.Call) and isinstance(c.func, ast.Attribute) and c.func.attr == "arrange"]
     if calls:
@@ -380,7 +388,7 @@ def ps_k(prog: Program, res: Result) -> None:
     # the sort key is current: no write to the weights between computing the permutation and applying it
     from ..paths import enumerate_paths
     for name in ("normalize", "arrange"):
-        fj = prog.func(K + name)
+        fj = kfunc(prog, name)
         desc_s = f"{name}: the sort permutation is computed from the weights as they are when it is applied (no write to the weights in between)"
         pnames = {}
         for a in ast.walk(fj.node):
@@ -420,7 +428,7 @@ def ps_k(prog: Program, res: Result) -> None:
                     "applies it: the components are ordered by outdated (e.g. still signed, not yet repaired) weights")
         elif checked:
             res.ok("PS-k", fj.short, desc_s, prog.loc(fj, next(iter(pnames.values()))))
-    fi = prog.func(K + "arrange")
+    fi = kfunc(prog, "arrange")
     desc = "arrange sorts by descending weight"
     pdefs = [ast.unparse(a.value).replace(" ", "") for a in ast.walk(fi.node) if isinstance(a, ast.Assign) and isinstance(a.targets[0], ast.Name)
              and a.targets[0].id == "p"]
@@ -430,7 +438,7 @@ def ps_k(prog: Program, res: Result) -> None:
         res.bad("PS-k", fi.short, desc, prog.loc(fi), f"p = {pdefs[0]}")
     # + and -
     for name, sign in (("__add__", "+"), ("__sub__", "-")):
-        fi = prog.func(K + name)
+        fi = kfunc(prog, name)
         desc = f"{name}: weights and factor columns are concatenated in the same operand order (self, {'' if sign == '+' else '-'}other)"
         cats = [c for c in ast.walk(fi.node) if isinstance(c, ast.Call) and (dotted(c.func) or "").split(".")[-1] in ("concatenate", "hstack")
                 and c.args and isinstance(c.args[0], (ast.Tuple, ast.List)) and len(c.args[0].elts) == 2]
@@ -518,7 +526,7 @@ def _blocks(fn: ast.FunctionDef):
 def absorb(prog: Program, res: Result) -> None:
     """Where a factor is multiplied by (a function of) the weights, the weights are reset to one in the same block."""
     for name in ("normalize", "arrange", "redistribute"):
-        fi = prog.func(K + name)
+        fi = kfunc(prog, name)
         k = 0
         for block in _blocks(fi.node):
             for i, st in enumerate(block):
@@ -572,14 +580,15 @@ def scale(prog: Program, res: Result) -> None:
     import sympy as sp
     methods: Dict[str, ast.FunctionDef] = {}
     fis = {}
+    from . import alg_common as A_
     for q, fi in prog.functions.items():
         if fi.cls == "ktensor" and not fi.parent and fi.module == "pyttb.ktensor":
-            methods[fi.name] = fi.node
+            methods[fi.name] = A_.dealias_factors(fi.node)
             fis[fi.name] = fi
     it = KS.Interp(methods)
     plan = [("normalize", "same"), ("redistribute", "same"), ("tolist", "list"), ("__neg__", "neg"), ("__mul__", "mul")]
     for name, kind in plan:
-        fi = prog.func(K + name)
+        fi = kfunc(prog, name)
         per_path: Dict[tuple, List] = {}
         for sigma in (1, -1):
             w0 = sigma * KS.A_
